@@ -349,6 +349,13 @@ theorem C06_define_default_matches_init (cs : List Cls) (rt : CState) (l : Cls) 
         (f.tag, (assign rt rv fault st n v).1.get n) ∈ (Init.runInit ic).values := by
   obtain ⟨_, h2⟩ := step_ok cs rt l e0 hl rv fault none [] st { name := n, value := v } none
   obtain ⟨f, hf, hget⟩ := h2 hdd hexc
+  have hinit : f.init = true := by
+    unfold isDefineDefault at hdd
+    rw [hl.last] at hdd
+    simp only at hf
+    rw [hf] at hdd
+    simp only [Bool.and_eq_true] at hdd
+    exact hdd.2
   refine ⟨f, hf, hget, ?_, ?_⟩
   · simp [chainEvents, setterEvents, pureApply]
   · intro ic hiw hik hok hmem hpass
@@ -357,12 +364,12 @@ theorem C06_define_default_matches_init (cs : List Cls) (rt : CState) (l : Cls) 
     refine ⟨f.toInit, hmem, ?_⟩
     have hraw : C01.rawOf ic.run.attrs ic.call f.toInit = v := by
       unfold C01.rawOf
-      simp only [Field.toInit, if_true]
+      simp only [Field.toInit, hinit, if_true]
       have : Init.passed (Init.params ic.run.attrs) ic.call f.name = some v := hpass
       simp [this]
     have : C01.expectedValue ic.run.attrs ic.call f.toInit = some (Init.convApply f.toInit v) := by
       unfold C01.expectedValue
-      have hp : Init.participates f.toInit = true := by simp [Init.participates, Field.toInit]
+      have hp : Init.participates f.toInit = true := by simp [Init.participates, Field.toInit, hinit]
       simp [hp, hraw]
     rw [this]
     show (f.tag, some (Init.convApply f.toInit v)) = (f.tag, (assign rt rv fault st n v).1.get n)
@@ -454,6 +461,23 @@ theorem C06_rejected_iff (b : CState) (c : Cls) (e0 : Eff) (he : eff0Of b c = .o
       · exact Or.inl (Or.inr ⟨h1, h2⟩)
       · exact Or.inr ⟨h1, h2⟩
     rw [hr] at this; cases this
+
+/-- **C06_rejected_whatever_field_options**: the field-level half of "hooks + frozen" looks at nothing but the
+    field's `on_setattr`: a frozen class (own `frozen=True` or inherited) with ANY resolved field — own or
+    inherited, `init=True` or `init=False`, with or without default, converter, validators — that carries a
+    field-level `on_setattr` does not define (and by `C06_frozen_never_hooked` no accepted frozen class has hooks) -/
+theorem C06_rejected_whatever_field_options (b : CState) (c : Cls) (f : Field) (hfz : isFrozenOf b c = true)
+    (hm : f ∈ resolveAttrs b.attrs c.fields) (hon : f.onSet ≠ .unset) :
+    defineAttrs b c = .error .valueError := by
+  cases hd : defineAttrs b c with
+  | error e => rw [defineAttrs_err b c e hd]
+  | ok s =>
+    exfalso
+    obtain ⟨e0, _, hr, _⟩ := defineAttrs_ok b c s hd
+    have hany : (resolveAttrs b.attrs c.fields).any (fun a => a.onSet != .unset) = true := by
+      rw [List.any_eq_true]
+      exact ⟨f, hm, by simpa using hon⟩
+    simp [rejects, hfz, hany] at hr
 
 /-- every definition-time error of the model is a ValueError -/
 theorem C06_rejected_kind (b : CState) (c : Cls) (e : Exc) (h : defineCls b c = .error e) : e = .valueError :=
